@@ -46,6 +46,34 @@ def tlc_sentences(verdict):
     return [bytes.fromhex(x) for x in hexes], len(hexes)
 
 
+def _wide(w):
+    return w[0] * sum(d * 10000 ** i for i, d in enumerate(w[1:]))
+
+
+def _head(s):
+    """((std abbr, std offset east), (dst abbr or None, dst offset east)) of a POSIX TZ sentence, or None (plain forms only)."""
+    import re
+    ab = rb"(<[A-Za-z0-9+\-]{3,}>|[A-Za-z]{3,})"
+    off = rb"([+-]?)(\d{1,3})(?::(\d{1,2}))?(?::(\d{1,2}))?"
+    m = re.match(ab + off + rb"(?:" + ab + rb"(?:" + off + rb")?)?(,.*)?$", s)
+    if not m:
+        return None
+    g = m.groups()
+    def val(sg, h, mi, se):
+        v = int(h) * 3600 + int(mi or 0) * 60 + int(se or 0)
+        return v if sg == b"-" else -v
+    soff = val(*g[1:5])
+    strip = lambda a: a[1:-1] if a.startswith(b"<") else a
+    if abs(soff) > 24 * 3600:
+        return None
+    if g[5] is None:
+        return (strip(g[0]), soff), (None, soff + 3600)
+    doff = val(*g[6:10]) if g[7] is not None else soff + 3600
+    if abs(doff) > 24 * 3600:
+        return None
+    return (strip(g[0]), soff), (strip(g[5]), doff)
+
+
 def run(pid, tier, seed):
     t0 = time.time()
     verdict = V.Verdict(pid)
@@ -93,12 +121,22 @@ def run(pid, tier, seed):
         r = __import__("random").Random(seed)
         pick = r.sample(ss, min(len(ss), 400 if tier == "quick" else 3000))
         zl = os.path.join(work, "zones.txt")
+        nvariant = 0
         os.makedirs(os.path.join(work, "z"), exist_ok=True)
         with open(zl, "w") as f:
             for i, s in enumerate(pick):
                 if b"\n" in s:
                     continue
                 types = [(-1000, False, b"LMT"), (-18000, False, b"EST"), (-14400, True, b"EDT")]
+                # every other file: the recorded types sit at the footer's own offsets under designations that merely
+                # EXTEND (or are a prefix of) the footer's - the footer's text, not a look-alike, names the future
+                h = _head(s)
+                if h and i % 2 == 1:
+                    (sab, soff), (dab, doff) = h
+                    ext = (lambda a: a + b"X") if i % 4 == 1 or min(len(sab), len(dab or sab)) < 4 else (lambda a: a[:-1])
+                    types = [(-1000, False, b"LMT"), (soff, False, ext(sab)),
+                             (doff, True, ext(dab)) if dab else (soff + 3600, True, ext(sab) + b"D")]
+                    nvariant += 1
                 data = tzgen.tzif(2, [(-2000000000, 1), (1000000000, 2), (1010000000, 1)], types, s)
                 p = os.path.join(work, "z", "f%d.tzif" % i)
                 open(p, "wb").write(data)
@@ -107,6 +145,7 @@ def run(pid, tier, seed):
         if dz.returncode != 0:
             verdict.violation("driver-crash-e2e:rc%d" % dz.returncode, "drv_zone died on footer files: " + dz.stderr[-300:])
         nfooter = 0
+        zbytes = {}
         for path, res in V.validate_shards("ZoneTrace", "ZoneTrace.cfg", sorted(glob.glob(os.path.join(work, "zt.*.ndjson"))), timeout=3000):
             lines = open(path).read().splitlines()
             if res.infra_failure or res.distinct != len(lines) + 1:
@@ -115,10 +154,22 @@ def run(pid, tier, seed):
             states += res.distinct
             trans += res.generated - 1
             nfooter += sum(1 for ln in lines if ln.startswith('{"e":"Load"'))
+            for ln in lines:
+                if ln.startswith('{"e":"Load"'):
+                    le = json.loads(ln)
+                    zbytes[(path, le.get("z"))] = le["bytes"]
             for n in V.reject_lines(res):
                 e = json.loads(lines[n - 1])
+                # lookups well past the recorded data (three years after its last entry, clear of the seam, whose handling
+                # belongs to C01): there the footer alone dictates offset, DST flag and designation
+                if e["e"] == "Break" and "abbr" in e and _wide(e["t"]) >= 1010000000 + 3 * 366 * 86400:
+                    b = bytes(zbytes.get((path, e.get("z")), b""))
+                    foot = b[:-1].rsplit(b"\n", 1)[-1]
+                    verdict.violation("Break:footer-zone",
+                                      "lookup in a TZif file with footer %r: rejected by ZoneTrace: %s" % (foot, json.dumps(e)[:300]), e)
+                    continue
                 if e["e"] != "Load":
-                    continue        # conversions on loaded zones belong to C01
+                    continue
                 b = bytes(e["bytes"])
                 foot = b[:-1].rsplit(b"\n", 1)[-1]
                 e["bytes"] = "(%d bytes)" % len(b)
